@@ -71,7 +71,7 @@ Proof.
   - cbn [app map]. rewrite labels_cons, step_basic_in by (apply basic_unescaped_bub, Hb). cbn [fst snd]. rewrite IH. reflexivity.
   - destruct He as [b n Hb | b k h Hb Hl Hh Hsc].
     + cbn [app map]. rewrite labels_basic_esc, IH. reflexivity.
-    + cbn [app map]. rewrite labels_basic_esc, labels_basic_run by (apply hex_run_bub, Hh). rewrite IH, map_app, <- app_assoc. reflexivity.
+    + cbn [app map]. rewrite labels_basic_esc, labels_basic_run by (apply hex_run_bub, Hh). rewrite IH. reflexivity.
 Qed.
 
 Lemma escape_char_ncl b : escape_simple b <> None \/ escape_hex b <> None -> ncl b = true.
@@ -256,9 +256,6 @@ Proof.
   rewrite starts3_head by exact H1. reflexivity.
 Qed.
 
-Lemma step_ml_quote_in e a b s : byte_eqb b (mlq e) = false -> step (mlst e) (mlq e) (mlq e :: a :: b :: s) = (mllab e, mlst e) \/ True.
-Proof. auto. Qed.
-
 Lemma ml_scan e x r : safe e x -> nhq (mlq e) r ->
   labels (mlst e) (x ++ [mlq e; mlq e; mlq e] ++ r)
   = map (fun _ => mllab e) x ++ [LNormal; LNormal; LNormal] ++ labels SNormal r.
@@ -267,8 +264,8 @@ Proof.
   - apply (ml_close_labels e 0); [lia|exact Hr].
   - apply (ml_close_labels e 1); [lia|exact Hr].
   - apply (ml_close_labels e 2); [lia|exact Hr].
-  - cbn [app map]. rewrite labels_cons, step_ml_in by exact Hb. cbn [fst snd]. rewrite IH. reflexivity.
-  - subst e. cbn [app map]. rewrite labels_cons. cbn [mlst step fst snd].
+  - cbn [app map] in *. rewrite labels_cons, step_ml_in by exact Hb. cbn [fst snd]. rewrite IH. reflexivity.
+  - subst e. cbn [app map] in *. rewrite labels_cons. cbn [mlst step fst snd].
     change (byte_eqb x5c x5c) with true. cbn [andb negb fst snd]. rewrite labels_cons. cbn [step fst snd emit].
     change SMlBasic with (mlst true). rewrite IH. reflexivity.
   - cbn [app map] in *. rewrite labels_cons, step_ml, mlq_not_bs. cbn [andb].
@@ -309,11 +306,11 @@ Proof.
     + constructor; [destruct e; reflexivity|]. constructor; [destruct e; reflexivity|].
       apply no_nl_app; [apply ml_no_nl; destruct e; reflexivity|].
       repeat (constructor; [destruct e; reflexivity|]). constructor.
-    + change ((mlq e, LNormal) :: (mlq e, LNormal) :: map (fun b => (b, mllab e)) x ++ [(mlq e, LNormal); (mlq e, LNormal); (mlq e, LNormal)])
-        with (tag LNormal [mlq e; mlq e] ++ tag (mllab e) x ++ tag LNormal [mlq e; mlq e; mlq e]).
+    + change (outz (tag LNormal [mlq e; mlq e] ++ tag (mllab e) x ++ tag LNormal [mlq e; mlq e; mlq e]) = mlq e :: mlq e :: x ++ [mlq e; mlq e; mlq e]).
       rewrite !outz_app, (outz_tag_ml (mllab e)) by (destruct e; reflexivity).
       destruct e; reflexivity.
-    + change (mlq e :: mlq e :: mlq e :: x ++ [mlq e; mlq e; mlq e]) with ((mlq e :: mlq e :: mlq e :: x ++ [mlq e; mlq e]) ++ [mlq e]).
+    + replace (mlq e :: mlq e :: mlq e :: x ++ [mlq e; mlq e; mlq e]) with ((mlq e :: mlq e :: mlq e :: x ++ [mlq e; mlq e]) ++ [mlq e])
+        by (cbn [app]; rewrite <- app_assoc; reflexivity).
       rewrite ends_lf_snoc. destruct e; reflexivity.
 Qed.
 
